@@ -156,6 +156,8 @@ class BayesianNetwork:
         elif type(n) == int and n <= 0:
             raise ValueError(_N_TYPE_ERROR)
         elif type(n) == list:
+            if len(n) != self.e:
+                raise ValueError("n must have one element per environment")
             for i in n:
                 if type(i) != int:
                     raise TypeError(_N_TYPE_ERROR)
